@@ -386,3 +386,34 @@ def switch_local_tests(body, local):
             if hit:
                 out.append((s, kind, labels, None))
     return out
+
+
+def follow_flag(body, tb, depth=0):
+    """`matches!` / `if let .. else` lowering: an arm that only stores a boolean constant into a temporary and
+    jumps to a block switching on that temporary really continues at that switch's corresponding target.
+    Returns the block where the arm's own code starts."""
+    if depth > 4:
+        return tb
+    blk = body.blocks[tb]
+    consts = {}
+    for st in blk["stmts"]:
+        if st["k"] == "assign" and not st["place"]["p"] and st["rv"]["k"] == "use" and st["rv"]["op"].get("k") == "const" and "int" in st["rv"]["op"]:
+            consts[st["place"]["l"]] = st["rv"]["op"]["int"]
+        elif st["k"] == "assign":
+            return tb
+    t = blk["term"]
+    if t["k"] != "goto" or not consts:
+        return tb
+    m = t["target"]
+    mb = body.blocks[m]
+    if mb["stmts"] or mb["term"]["k"] != "switch":
+        return tb
+    d = mb["term"]["discr"]
+    if d.get("k") not in ("copy", "move") or d["place"]["p"] or d["place"]["l"] not in consts:
+        return tb
+    v = consts[d["place"]["l"]]
+    nxt = mb["term"]["otherwise"]
+    for val, x in mb["term"]["targets"]:
+        if str(val) == str(v):
+            nxt = x
+    return follow_flag(body, nxt, depth + 1)
